@@ -13,3 +13,4 @@ CONSTANTS
   PruneNoStart = FALSE
 SPECIFICATION Spec
 INVARIANT Inv_Faithful
+INVARIANT Inv_Repr
